@@ -253,6 +253,26 @@ func (pa *provAnalysis) addrProv(addr ssa.Value, ctx *provCtx) provSet {
 			if st, ok := ref.(*ssa.Store); ok && st.Addr == ssa.Value(a) {
 				out.add(pa.of(st.Val, ctx))
 			}
+			// captured by reference: stores made through the free variable in
+			// the closures that capture it
+			if mc, ok := ref.(*ssa.MakeClosure); ok {
+				if cf, ok := mc.Fn.(*ssa.Function); ok {
+					for i, b := range mc.Bindings {
+						if b != ssa.Value(a) || i >= len(cf.FreeVars) {
+							continue
+						}
+						fv := cf.FreeVars[i]
+						if fv.Referrers() == nil {
+							continue
+						}
+						for _, r2 := range *fv.Referrers() {
+							if st, ok := r2.(*ssa.Store); ok && st.Addr == ssa.Value(fv) {
+								out.add(pa.of(st.Val, nil))
+							}
+						}
+					}
+				}
+			}
 			// a call that receives the address of this local (x.Set(v),
 			// fmt.Fprintf(&buf, ...)) may write its other operands into it
 			if call, ok := ref.(ssa.CallInstruction); ok {
